@@ -1,11 +1,26 @@
 package main
 
-// C19 (gpool): the capacities of the hand-off channels. The Lean model treats JobChannel, Worker.Stop
-// and Pool.stop as unbuffered (send and receive are one joint action); the theorem
-// `C19_model_applicable` is stated over these constants, so a buffered channel breaks the build.
+// C19 (gpool and the handlers that own a pool).
+//
+//   poolJobChannelCap, poolWorkerStopCap, poolStopCap
+//       capacities of the hand-off channels. The Lean model treats JobChannel, Worker.Stop and
+//       Pool.stop as unbuffered (send and receive are one joint action); `C19_model_applicable` is
+//       stated over these constants, so a buffered channel breaks the build.
+//   poolTcpReleases, poolUdpReleases
+//       number of `<x>.Release()` calls in tcpHandler.Handle / udpHandler.Handle
+//   poolTcpReleaseAfterDrain, poolUdpReleaseAfterDrain
+//       1 iff every such Release is executed only after the handler has waited for its outstanding
+//       invocations (`<x>.Wait()` on a WaitGroup, or a loop on numInvoke), in EXECUTION order:
+//       plain statements in source order, then the deferred calls in reverse order of their
+//       registration (a deferred Release must be registered before the deferred wait to run after
+//       it). Releasing earlier drops the handlers still queued in the pool (theorems
+//       C19_queued_jobs_never_run / C19_release_loses_exactly_the_queued_jobs);
+//       `C19_handlers_release_after_drain_current_tree` requires both constants to be 1.
 
 import (
 	"go/ast"
+	"sort"
+	"strings"
 )
 
 // chanCapInLit finds, inside fn, the composite-literal field `<field>: make(chan T[, lit])` and
@@ -53,9 +68,111 @@ func (f *file) chanCapInLit(fnName, field string) (int64, bool) {
 	return val, found
 }
 
+type poolEv struct {
+	phase, major, minor int
+	release             bool
+}
+
+// releaseAfterDrain orders the pool releases and the drain waits of a handler's Handle function by
+// execution order (see the header) and reports the number of releases and whether each of them is
+// preceded by a drain wait.
+func (f *file) releaseAfterDrain(fnName string) (releases int64, after int64, ok bool) {
+	fd := f.funcDecl(fnName)
+	if fd == nil || fd.Body == nil {
+		return 0, 0, false
+	}
+	var evs []poolEv
+	seq, defers := 0, 0
+	mentions := func(n ast.Node, name string) bool {
+		hit := false
+		ast.Inspect(n, func(x ast.Node) bool {
+			if be, ok := x.(*ast.BinaryExpr); ok && strings.Contains(exprStr(f.fset, be), name) {
+				hit = true
+			}
+			return !hit
+		})
+		return hit
+	}
+	var walk func(n ast.Node, phase, major int)
+	walk = func(n ast.Node, phase, major int) {
+		ast.Inspect(n, func(x ast.Node) bool {
+			switch s := x.(type) {
+			case *ast.GoStmt:
+				return false // another goroutine
+			case *ast.FuncLit:
+				return false // a closure that is only defined here (the request handler)
+			case *ast.DeferStmt:
+				if phase == 0 {
+					defers++
+					if fl, isLit := s.Call.Fun.(*ast.FuncLit); isLit {
+						walk(fl.Body, 1, -defers)
+					} else {
+						walk(s.Call, 1, -defers)
+					}
+				}
+				return false // (defers inside a deferred closure end with that closure: source order is kept)
+			case *ast.ForStmt:
+				if (s.Cond != nil && strings.Contains(exprStr(f.fset, s.Cond), "numInvoke")) || mentions(s.Body, "numInvoke") {
+					seq++
+					evs = append(evs, poolEv{phase, major, seq, false})
+				}
+			case *ast.RangeStmt:
+				if mentions(s.Body, "numInvoke") {
+					seq++
+					evs = append(evs, poolEv{phase, major, seq, false})
+				}
+			case *ast.CallExpr:
+				callee := exprStr(f.fset, s.Fun)
+				if len(s.Args) == 0 && strings.HasSuffix(callee, ".Wait") {
+					seq++
+					evs = append(evs, poolEv{phase, major, seq, false})
+				}
+				if len(s.Args) == 0 && strings.HasSuffix(callee, ".Release") {
+					seq++
+					evs = append(evs, poolEv{phase, major, seq, true})
+				}
+			}
+			return true
+		})
+	}
+	walk(fd.Body, 0, 0)
+	sort.SliceStable(evs, func(i, j int) bool {
+		a, b := evs[i], evs[j]
+		if a.phase != b.phase {
+			return a.phase < b.phase
+		}
+		if a.major != b.major {
+			return a.major < b.major
+		}
+		return a.minor < b.minor
+	})
+	after = 1
+	drained := false
+	for _, e := range evs {
+		if e.release {
+			releases++
+			if !drained {
+				after = 0
+			}
+		} else {
+			drained = true
+		}
+	}
+	return releases, after, true
+}
+
 func init() {
 	mirrored["tars/util/gpool/gpool.go"] = []string{
 		"Worker.Start", "newWorker", "NewPool", "Pool.Start", "Pool.dispatch", "Pool.Release",
+	}
+	for _, m := range [][2]string{{"tars/transport/tcphandler.go", "tcpHandler.Handle"}, {"tars/transport/udphandler.go", "udpHandler.Handle"}} {
+		dup := false
+		for _, have := range mirrored[m[0]] {
+			dup = dup || have == m[1]
+		}
+		if !dup {
+			mirrored[m[0]] = append(mirrored[m[0]], m[1])
+		}
 	}
 	extras = append(extras, func(add func(string, int64, bool)) {
 		gp := parse("tars/util/gpool/gpool.go")
@@ -65,5 +182,11 @@ func init() {
 		add("poolWorkerStopCap", v, ok)
 		v, ok = gp.chanCapInLit("NewPool", "stop")
 		add("poolStopCap", v, ok)
+		n, a, ok := parse("tars/transport/tcphandler.go").releaseAfterDrain("tcpHandler.Handle")
+		add("poolTcpReleases", n, ok)
+		add("poolTcpReleaseAfterDrain", a, ok)
+		n, a, ok = parse("tars/transport/udphandler.go").releaseAfterDrain("udpHandler.Handle")
+		add("poolUdpReleases", n, ok)
+		add("poolUdpReleaseAfterDrain", a, ok)
 	})
 }
